@@ -48,14 +48,17 @@ def sset(xs):
 
 
 def family_cfg(name, V=(), W=(), X=(), O=(), Q=(), vref=(), wref=(), xref=(), oref=(), block=True, obuiltin=True,
-               kind="str", litform="native"):
+               kind="str", litform="native", sibling=False, histlen=0):
     return {"name": name, "text": "CONSTANTS\n  VAllowed = %s\n  WAllowed = %s\n  XAllowed = %s\n  OAllowed = %s\n  QAllowed = %s\n"
             "  VRefAt = %s\n  WRefAt = %s\n  XRefAt = %s\n  ORefAt = %s\n  DecoyBlock = %s\n  OBuiltin = %s\n  OptKind = \"%s\"\n"
-            "  LitForm = \"%s\"\n  Family = \"%s\"\n  Emit = TRUE\n"
+            "  LitForm = \"%s\"\n  Family = \"%s\"\n  Emit = TRUE\n  Sibling = %s\n  HistLen = %d\n"
             "SPECIFICATION Spec\nINVARIANT TypeOK\nINVARIANT FoldIsTop\nINVARIANT NoDecoyInResult\nINVARIANT NoReferenceLeft\n"
-            "INVARIANT EmitCase\nPROPERTY DecoyIrrelevant\nPROPERTY HigherWins\nCHECK_DEADLOCK FALSE\n" % (
+            "INVARIANT AnswersAreLayering\nINVARIANT ViewsSeparate\n"
+            "INVARIANT EmitCase\nPROPERTY DecoyIrrelevant\nPROPERTY HigherWins\nPROPERTY ReadsDoNotWrite\nCHECK_DEADLOCK FALSE\n" % (
                 sset(V), sset(W), sset(X), sset(O), sset(Q), sset(vref), sset(wref), sset(xref), sset(oref),
-                "TRUE" if block else "FALSE", "TRUE" if obuiltin else "FALSE", kind, litform, name),
+                "TRUE" if block else "FALSE", "TRUE" if obuiltin else "FALSE", kind, litform, name,
+                "TRUE" if sibling else "FALSE", histlen),
+            "histlen": histlen,
             "expect_decoys": block and bool(set(V) | set(W) | set(X) | set(O) | set(Q)) and bool((set(V) | set(O) | set(W) | set(X) | set(Q)) & set(VDECOY))}
 
 
@@ -89,6 +92,15 @@ def families(tier):
             fams.append(family_cfg("typed-%s-%s" % (k, lf), O=["dg", "comp", "ov1"], oref=["dg", "comp", "ov1"], V=vl, kind=k, litform=lf, block=False))
     fams.append(family_cfg("typed-int-nobuiltin", O=["ds", "comp", "ovd"], oref=["ds", "comp", "ovd"], V=vl, W=["dg"], vref=["ug"], kind="int",
                            litform="string", obuiltin=False, block=False))
+    # H: histories of read-only calls on one object (stage-level blueprints, a sibling component of the same stage):
+    #    query / instance / replicate for either platform, with and without injected defaults, the last call a query
+    hl = 3 if th else 2
+    fams.append(family_cfg("history-opts", O=["ds", "p1g", "p1s", "comp"] + (["dg"] if th else []), Q=["ds"] + (["comp"] if th else []),
+                           block=False, sibling=True, histlen=2))
+    fams.append(family_cfg("history-refs", O=["ds", "p1s"], oref=["ds"], V=["dg", "p1g"] + (["ds"] if th else []), block=False, sibling=True, histlen=2))
+    fams.append(family_cfg("history-typed", O=["ds", "p1g", "comp"], oref=["ds"], V=["dg", "p1s"], kind="int", block=False, sibling=True, histlen=2))
+    if th:
+        fams.append(family_cfg("history-long", O=["ds", "p1g", "comp"], Q=["ds"], block=False, sibling=True, histlen=3))
     return fams
 
 
@@ -217,7 +229,11 @@ def build_doc(case):
     for s in ("o", "q"):
         if s in case["used"]:
             set_path(d, paths[s], "other" if s == "q" else other_lit)
-    flowir = {"platforms": ["default", "p1", "p2"], "variables": {}, "blueprint": {}, "components": [c, d]}
+    comps = [c, d]
+    if case.get("sibling"):
+        # a second component of the same stage that defines nothing itself: it sees every layer but c's own ones
+        comps = [c, {"name": "e", "stage": 0, "command": {"executable": "echo", "arguments": "y"}}, d]
+    flowir = {"platforms": ["default", "p1", "p2"], "variables": {}, "blueprint": {}, "components": comps}
     user = {"global": {}, "stages": {}}
     plat = {"d": "default", "p1": "p1", "p2": "p2"}
     for df in sorted(case["defs"], key=lambda r: (r["s"], r["l"])):
@@ -303,6 +319,106 @@ def load(flowir, files, active, validate):
         primitive=True, concrete=FL.FlowIRConcrete(copy.deepcopy(flowir), active, {}), updateInstanceFiles=False, validate=validate)
 
 
+def check_query(case, concrete, Q, exp, where, rpq, comp="c", inject=True):
+    """One query on `concrete`: get_component_variables + get_component_configuration of component `comp` for platform Q,
+    compared with the specification's answer `exp` (ResultV of the view (comp, inject))."""
+    FL, conf, E = real_modules()
+    kind, litform = case["kind"], case["litform"]
+    paths = opt_paths(case)
+    builtin = FL.FlowIR.default_component_structure()
+    out = []
+    cid = (0, comp)
+    # raw view: which definition is on top for each variable
+    try:
+        raw = concrete.get_component_variables(cid, platform=Q)
+    except BaseException as e:
+        out.append(("vars:unexpected-exception:%s" % type(e).__name__, "%s: get_component_variables raised %r" % (where, e), rpq))
+        raw = None
+    usedvars = [s for s in VORDER if s in case["used"]]
+    if raw is not None:
+        for s in usedvars:
+            top = exp["tops"][s]
+            nm = VNAME[s]
+            if top == "none":
+                if nm in raw:
+                    out.append(("leak:var:%s" % (decode(raw[nm], kind) or [("?", "?")])[0][1],
+                                "%s: variable %s should be undefined, real raw value %r" % (where, nm, raw[nm]), rpq))
+                continue
+            df = [d for d in case["defs"] if d["s"] == s and d["l"] == top][0]
+            want = render_def(df, kind, litform)
+            if nm not in raw or raw[nm] != want or type(raw[nm]) is not type(want):
+                got = raw.get(nm, "<missing>")
+                out.append((order_key([[df]], got, kind), "%s: raw value of %s should come from %s (%r), real %r" % (where, nm, top, want, got), rpq))
+        extra = set(raw) - {VNAME[s] for s in usedvars if exp["tops"][s] != "none"}
+        if extra:
+            out.append(("leak:var:extra-name", "%s: unexpected variables %s" % (where, sorted(extra)), rpq))
+    # resolved view
+    err = None
+    try:
+        r = concrete.get_component_configuration(cid, raw=False, include_default=True, platform=Q, inject_missing_fields=inject)
+    except BaseException as e:
+        if isinstance(e, (KeyboardInterrupt, SystemExit)):
+            raise
+        err = e
+    if exp["errs"]:
+        if err is None:
+            out.append(("undefined:not-reported:%s" % "+".join(sorted(exp["errs"])),
+                        "%s: specification demands an error (%s), real resolver returned arguments=%r variables=%r" % (
+                            where, exp["errs"], r["command"].get("arguments"), r.get("variables")), rpq))
+        elif exp["errs"] == ["undefined"] and not isinstance(err, E.FlowIRVariableUnknown):
+            out.append(("undefined:wrong-exception:%s" % type(err).__name__, "%s: undefined reference reported as %r" % (where, err), rpq))
+        return out
+    if err is not None:
+        out.append(("defined:unexpected-exception:%s" % type(err).__name__, "%s: resolver raised %r" % (where, str(err)[:300]), rpq))
+        return out
+    vals = exp["vals"] if isinstance(exp["vals"], dict) else {}
+    rv = r.get("variables", {})
+    if set(rv) != {VNAME[s] for s in vals if s in VNAME}:
+        out.append(("leak:var:extra-name", "%s: resolved variables %s, specification %s" % (where, sorted(rv), sorted(VNAME[s] for s in vals if s in VNAME)), rpq))
+    for s, chain in sorted(vals.items()):
+        if s in VNAME:
+            want = expected_variable(chain, kind, litform)
+            got = rv.get(VNAME[s], "<missing>")
+            if got != want or type(got) is not type(want):
+                out.append((order_key([chain], got, kind), "%s: resolved variable %s should be %r, real %r" % (where, VNAME[s], want, got), rpq))
+        else:
+            got = get_path(r, paths[s])
+            k = kind if s == "o" else "str"
+            if chain[0]["l"] == "builtin":
+                want = get_path(builtin, paths[s])
+                if got != want:
+                    out.append(("order:opt:exp=builtin:got=%s" % (decode(got, k) or [("?", "?")])[0][1],
+                                "%s: option %s should keep its built-in value %r, real %r" % (where, paths[s], want, got), rpq))
+                continue
+            text = expected_text(chain, k, litform) if len(chain) > 1 else lit_value(chain[0], k, litform, True)
+            want = typed(text, k)
+            if type(got) is not PY_TYPE[k]:
+                out.append(("typed:%s:wrong-type" % k, "%s: option %s declared %s, real value %r (%s)" % (where, paths[s], k, got, type(got).__name__), rpq))
+            elif got != want:
+                if k == "bool" and want is False and len(chain) > 1:
+                    key = "typed:bool-false-as-text"            # the value arrives as text (through a variable)
+                elif k == "bool":
+                    key = "order:opt:exp=%s:got=?" % chain[0]["l"]
+                else:
+                    key = order_key([chain], got, k)
+                out.append((key, "%s: option %s should be %r, real %r" % (where, paths[s], want, got), rpq))
+    argslots = [s for s in VORDER if s in case["args"]] if comp == "c" else []
+    if argslots:
+        wa = " ".join(expected_text(vals[s], kind, litform) for s in argslots)
+        ga = r["command"]["arguments"]
+        if ga != wa:
+            out.append((order_key([vals[s] for s in argslots], ga, kind).replace("order:var", "order:args"),
+                        "%s: command line should be %r, real %r" % (where, wa, ga), rpq))
+    for s in exp["undef"]:
+        try:
+            got = get_path(r, paths[s])
+        except KeyError:
+            got = None                                  # without injected defaults the option is simply absent
+        if got is not None:
+            out.append(("leak:opt:%s" % (decode(got, "str") or [("?", "?")])[0][1], "%s: option %s is defined nowhere, real value %r" % (where, paths[s], got), rpq))
+    return out
+
+
 def run_case(case, scratch, idx=0, only=None):
     """Execute one emitted state on the real code.  Returns a list of (key, what, replay) mismatches."""
     FL, conf, E = real_modules()
@@ -343,92 +459,61 @@ def run_case(case, scratch, idx=0, only=None):
             exp = case["exp"][Q]
             rpq = dict(rp, query=Q)
             where = "family %s active %s query %s defs %s" % (case["family"], active, Q, brief(case))
-            # raw view: which definition is on top for each variable
+            out.extend(check_query(case, concrete, Q, exp, where, rpq))
+    return out
+
+
+def run_history(case, only=None):
+    """Execute one history of read-only calls on ONE FlowIRConcrete object holding the document of the case.  After every
+    call the stored document must be unchanged, every query must answer the pure layering of the document."""
+    FL, conf, E = real_modules()
+    flowir, user = build_doc(case)
+    if user:
+        raise MachineryError("history families do not use user variable files")
+    out = []
+    concrete = FL.FlowIRConcrete(copy.deepcopy(flowir), "default", {})
+    snapshot = copy.deepcopy(concrete._flowir)
+    ops = case["hist"]
+    names = [o["op"] if o["op"] != "query" else "query(%s,%s,%s)" % (o["plat"], o["comp"], "inject" if o["inject"] else "bare") for o in ops]
+    modified = False
+    for n, o in enumerate(ops):
+        rp = {"case": case, "step": n}
+        where = "family %s history %s step %d defs %s" % (case["family"], " > ".join(names), n + 1, brief(case))
+        before = "+".join(x["op"] + ("" if x["inject"] else "-bare") for x in ops[:n]) or "fresh"
+        if o["op"] == "query":
+            res = check_query(case, concrete, o["plat"], o["exp"], where, rp, comp=o["comp"], inject=o["inject"])
+            for key, what, r in res:
+                out.append(("history:after-%s:%s" % (before, key), what, r))
+        else:
             try:
-                raw = concrete.get_component_variables((0, "c"), platform=Q)
-            except BaseException as e:
-                out.append(("vars:unexpected-exception:%s" % type(e).__name__, "%s: get_component_variables raised %r" % (where, e), rpq))
-                raw = None
-            usedvars = [s for s in VORDER if s in case["used"]]
-            if raw is not None:
-                for s in usedvars:
-                    top = exp["tops"][s]
-                    nm = VNAME[s]
-                    if top == "none":
-                        if nm in raw:
-                            out.append(("leak:var:%s" % (decode(raw[nm], kind) or [("?", "?")])[0][1],
-                                        "%s: variable %s should be undefined, real raw value %r" % (where, nm, raw[nm]), rpq))
-                        continue
-                    df = [d for d in case["defs"] if d["s"] == s and d["l"] == top][0]
-                    want = render_def(df, kind, litform)
-                    if nm not in raw or raw[nm] != want or type(raw[nm]) is not type(want):
-                        got = raw.get(nm, "<missing>")
-                        out.append((order_key([[df]], got, kind), "%s: raw value of %s should come from %s (%r), real %r" % (where, nm, top, want, got), rpq))
-                extra = set(raw) - {VNAME[s] for s in usedvars if exp["tops"][s] != "none"}
-                if extra:
-                    out.append(("leak:var:extra-name", "%s: unexpected variables %s" % (where, sorted(extra)), rpq))
-            # resolved view
-            err = None
-            try:
-                r = concrete.get_component_configuration((0, "c"), raw=False, include_default=True, platform=Q)
+                if o["op"] == "instance":
+                    concrete.instance(platform=o["plat"], ignore_errors=True, inject_missing_fields=o["inject"])
+                else:
+                    concrete.replicate(platform=o["plat"], ignore_errors=True)
             except BaseException as e:
                 if isinstance(e, (KeyboardInterrupt, SystemExit)):
                     raise
-                err = e
-            if exp["errs"]:
-                if err is None:
-                    out.append(("undefined:not-reported:%s" % "+".join(sorted(exp["errs"])),
-                                "%s: specification demands an error (%s), real resolver returned arguments=%r variables=%r" % (
-                                    where, exp["errs"], r["command"].get("arguments"), r.get("variables")), rpq))
-                elif exp["errs"] == ["undefined"] and not isinstance(err, E.FlowIRVariableUnknown):
-                    out.append(("undefined:wrong-exception:%s" % type(err).__name__, "%s: undefined reference reported as %r" % (where, err), rpq))
-                continue
-            if err is not None:
-                out.append(("defined:unexpected-exception:%s" % type(err).__name__, "%s: resolver raised %r" % (where, str(err)[:300]), rpq))
-                continue
-            vals = exp["vals"] if isinstance(exp["vals"], dict) else {}
-            rv = r.get("variables", {})
-            if set(rv) != {VNAME[s] for s in vals if s in VNAME}:
-                out.append(("leak:var:extra-name", "%s: resolved variables %s, specification %s" % (where, sorted(rv), sorted(VNAME[s] for s in vals if s in VNAME)), rpq))
-            for s, chain in sorted(vals.items()):
-                if s in VNAME:
-                    want = expected_variable(chain, kind, litform)
-                    got = rv.get(VNAME[s], "<missing>")
-                    if got != want or type(got) is not type(want):
-                        out.append((order_key([chain], got, kind), "%s: resolved variable %s should be %r, real %r" % (where, VNAME[s], want, got), rpq))
-                else:
-                    got = get_path(r, paths[s])
-                    k = kind if s == "o" else "str"
-                    if chain[0]["l"] == "builtin":
-                        want = get_path(builtin, paths[s])
-                        if got != want:
-                            out.append(("order:opt:exp=builtin:got=%s" % (decode(got, k) or [("?", "?")])[0][1],
-                                        "%s: option %s should keep its built-in value %r, real %r" % (where, paths[s], want, got), rpq))
-                        continue
-                    text = expected_text(chain, k, litform) if len(chain) > 1 else lit_value(chain[0], k, litform, True)
-                    want = typed(text, k)
-                    if type(got) is not PY_TYPE[k]:
-                        out.append(("typed:%s:wrong-type" % k, "%s: option %s declared %s, real value %r (%s)" % (where, paths[s], k, got, type(got).__name__), rpq))
-                    elif got != want:
-                        if k == "bool" and want is False and len(chain) > 1:
-                            key = "typed:bool-false-as-text"            # the value arrives as text (through a variable)
-                        elif k == "bool":
-                            key = "order:opt:exp=%s:got=?" % chain[0]["l"]
-                        else:
-                            key = order_key([chain], got, k)
-                        out.append((key, "%s: option %s should be %r, real %r" % (where, paths[s], want, got), rpq))
-            argslots = [s for s in VORDER if s in case["args"]]
-            if argslots:
-                wa = " ".join(expected_text(vals[s], kind, litform) for s in argslots)
-                ga = r["command"]["arguments"]
-                if ga != wa:
-                    out.append((order_key([vals[s] for s in argslots], ga, kind).replace("order:var", "order:args"),
-                                "%s: command line should be %r, real %r" % (where, wa, ga), rpq))
-            for s in exp["undef"]:
-                got = get_path(r, paths[s])
-                if got is not None:
-                    out.append(("leak:opt:%s" % (decode(got, "str") or [("?", "?")])[0][1], "%s: option %s is defined nowhere, real value %r" % (where, paths[s], got), rpq))
+                # whether a package with dangling references can be developed is not the subject here
+        if not modified and concrete._flowir != snapshot:
+            modified = True
+            diff = doc_diff(snapshot, concrete._flowir)
+            out.append(("history:document-modified-by:%s%s" % (o["op"], "" if o["inject"] else "-bare"),
+                        "%s: the read-only call changed the stored document: %s" % (where, diff), rp))
     return out
+
+
+def doc_diff(a, b, prefix=""):
+    if isinstance(a, dict) and isinstance(b, dict):
+        outs = []
+        for k in sorted(set(a) | set(b), key=str):
+            if k not in a:
+                outs.append("%s%s added (%r)" % (prefix, k, b[k]))
+            elif k not in b:
+                outs.append("%s%s removed" % (prefix, k))
+            elif a[k] != b[k]:
+                outs.append(doc_diff(a[k], b[k], "%s%s." % (prefix, k)))
+        return "; ".join(outs)[:600]
+    return "%s %r -> %r" % (prefix.rstrip("."), a, b)
 
 
 def classify_loader_reject(case, e):
@@ -531,7 +616,7 @@ def _worker(args):
     cases, scratch, base = args
     res = []
     for i, case in enumerate(cases):
-        res.append(run_case(case, scratch, base + i))
+        res.append(run_history(case) if case.get("hist") else run_case(case, scratch, base + i))
     return res
 
 
@@ -587,7 +672,13 @@ def run(tier):
                 seen.add(k)
                 uniq.append(c)
         r["cases"] = uniq
-        if len(r["cases"]) != r["distinct"]:
+        if fam["histlen"]:
+            for act in ("Query", "Instance", "Replicate"):
+                if not r["coverage"].get(act):
+                    raise MachineryError("action %s never taken in family %s: %s" % (act, fam["name"], r["coverage"]))
+            if not r["cases"] or any(len(c["hist"]) != fam["histlen"] or c["hist"][-1]["op"] != "query" for c in r["cases"]):
+                raise MachineryError("family %s: no or incomplete histories emitted (%d)" % (fam["name"], len(r["cases"])))
+        elif len(r["cases"]) != r["distinct"]:
             raise MachineryError("family %s: %d states but %d emitted cases" % (fam["name"], r["distinct"], len(r["cases"])))
         chk.add_tlc(r)
         all_cases.extend(r["cases"])
